@@ -462,6 +462,87 @@ int main(int argc, char** argv) {
         });
     }
 
+    // =================================================================================== ContactTrackerSubsystem: broad phase (bubbles) + dispatch + mount transforms
+    // Ground half space + four Free bodies, each carrying one ContactSurface mounted through a rotated AND translated X_BS:
+    // two meshes whose vertices are shifted inside their own frame (bounding-sphere centre != frame origin) and two spheres.
+    // Mount rotations of the two meshes range over {identity, pi/2 about z, pi about y, generic}^2; every body takes every
+    // position of a small lattice (and one of two orientations).  Differential oracle: the active-contact snapshot must equal,
+    // pair by pair, what the subsystem's own registered tracker returns for that pair at the surfaces' ground poses
+    // (so a pair pruned by a misplaced bubble, a wrong mount transform or a wrong argument order shows up).
+    {
+        const std::vector<Vec3> lat = [&] { std::vector<Vec3> v; const int nx = thorough ? 3 : 2;
+            for (int ix = 0; ix < nx; ++ix) for (int iy = 0; iy < 2; ++iy) for (int iz = 0; iz < 2; ++iz) v.push_back(Vec3(0.9 * ix, 0.35 + 0.65 * iy, 0.8 * iz) * S); return v; }();
+        const int64_t NL = (int64_t)lat.size(), nPlace = NL * NL * NL * NL;
+        auto mountRot = [](int k) { return k == 0 ? Rotation() : k == 1 ? Rotation(Pi / 2, ZAxis) : k == 2 ? Rotation(Pi, YAxis) : Rotation(0.7, UnitVec3(1, 2, 3)); };
+        auto kindOf = [](const ContactGeometry& g) { return ContactGeometry::HalfSpace::isInstance(g) ? std::string("HalfSpace") : ContactGeometry::Sphere::isInstance(g) ? std::string("Sphere") : std::string("Mesh"); };
+        auto rank = [](const std::string& k) { return k == "HalfSpace" ? 0 : k == "Sphere" ? 1 : 2; };
+        run.parallel("tracker-subsystem", nPlace * 16, [&](int64_t idx) {
+            const int mount = (int)(idx / nPlace); const int64_t pl = idx % nPlace;
+            int pos[4]; { int64_t t = pl; for (int b = 0; b < 4; ++b) { pos[b] = (int)(t % NL); t /= NL; } }
+            struct Sys { MultibodySystem sys; std::unique_ptr<SimbodyMatterSubsystem> matter; std::unique_ptr<ContactTrackerSubsystem> tracker; std::vector<MobilizedBody::Free> bodies; State state0; };
+            static std::map<int, std::shared_ptr<Sys>> cache;
+            if (!cache.count(mount)) {
+                auto sy = std::make_shared<Sys>(); sy->matter.reset(new SimbodyMatterSubsystem(sy->sys)); sy->tracker.reset(new ContactTrackerSubsystem(sy->sys));
+                const ContactMaterial mat(1e6, 0.1, 0.5, 0.5, 0);
+                auto meshGeo = [](const gk::RefMesh& m) { Array_<Vec3> verts; Array_<int> faces; for (auto& v : m.v) verts.push_back(v); for (auto& f : m.f) for (int j = 0; j < 3; ++j) faces.push_back(f[j]); return ContactGeometry::TriangleMesh(verts, faces); };
+                // off-centre meshes: all vertices shifted inside the mesh frame
+                ContactGeometry::TriangleMesh meshA = meshGeo(gk::transformed(gk::octahedron(0.6 * S), Mat33(1), Vec3(0.7, 0, 0) * S, "-off"));
+                ContactGeometry::TriangleMesh meshB = meshGeo(gk::transformed(gk::boxMesh(Vec3(0.35, 0.5, 0.4) * S), Mat33(1), Vec3(0, 0.6, 0.3) * S, "-off"));
+                sy->matter->Ground().updBody().addContactSurface(Transform(Rotation(-Pi / 2, ZAxis), Vec3(0)), ContactSurface(ContactGeometry::HalfSpace(), mat));
+                const Transform X_BS[4] = {Transform(mountRot(mount % 4), Vec3(0.2, -0.1, 0.15) * S), Transform(mountRot(mount / 4), Vec3(-0.1, 0.2, -0.15) * S),
+                                           Transform(Rotation(Pi / 2, XAxis), Vec3(-0.15, 0.1, 0) * S), Transform()};
+                for (int b = 0; b < 4; ++b) {
+                    Body::Rigid body(MassProperties(1, Vec3(0), Inertia(1)));
+                    if (b == 0) body.addContactSurface(X_BS[b], ContactSurface(meshA, mat)); else if (b == 1) body.addContactSurface(X_BS[b], ContactSurface(meshB, mat));
+                    else body.addContactSurface(X_BS[b], ContactSurface(ContactGeometry::Sphere((b == 2 ? 0.45 : 0.35) * S), mat));
+                    sy->bodies.push_back(MobilizedBody::Free(sy->matter->Ground(), Transform(), body, Transform()));
+                }
+                sy->sys.realizeTopology(); sy->state0 = sy->sys.getDefaultState(); cache[mount] = sy;
+            }
+            Sys& Y = *cache[mount];
+            State st = Y.state0;   // a fresh state: no previously active contacts
+            for (int b = 0; b < 4; ++b) {
+                Rotation Rb; if (pos[b] % 2) Rb.setRotationFromApproximateMat33(gk::genericRotation(b));
+                Y.bodies[b].setQToFitTransform(st, Transform(Rb, lat[pos[b]] + Vec3(0.013 * b, 0.007 * b, -0.011 * b) * S));
+            }
+            Y.sys.realize(st, Stage::Position);
+            const ContactSnapshot& snap = Y.tracker->getActiveContacts(st);
+            std::string desc = "mount=" + std::to_string(mount) + " (meshA rot#" + std::to_string(mount % 4) + ", meshB rot#" + std::to_string(mount / 4) + ") positions=" + std::to_string(pos[0]) + "," + std::to_string(pos[1]) + "," + std::to_string(pos[2]) + "," + std::to_string(pos[3]);
+            auto rp = [&] { return run.replayHeader() + desc + "\n"; };
+            run.evaluation(verif::hashStr("trksub" + desc), true);
+            const int n = Y.tracker->getNumSurfaces();
+            std::map<std::pair<int,int>, std::vector<const Contact*>> got;
+            for (int c = 0; c < snap.getNumContacts(); ++c) { const Contact& k = snap.getContact(c); int a = k.getSurface1(), b = k.getSurface2(); got[{std::min(a, b), std::max(a, b)}].push_back(&k); }
+            for (int i = 0; i < n; ++i) for (int j = i + 1; j < n; ++j) {
+                const ContactSurfaceIndex si(i), sj(j);
+                if (Y.tracker->getMobilizedBody(si).getMobilizedBodyIndex() == Y.tracker->getMobilizedBody(sj).getMobilizedBodyIndex()) continue;
+                const ContactGeometry& gi = Y.tracker->getContactSurface(si).getShape(); const ContactGeometry& gj = Y.tracker->getContactSurface(sj).getShape();
+                std::string ki = kindOf(gi), kj = kindOf(gj); const std::string pairName = rank(ki) <= rank(kj) ? ki + "-" + kj : kj + "-" + ki;
+                const Transform Xi = Y.tracker->getMobilizedBody(si).getBodyTransform(st) * Y.tracker->getContactSurfaceTransform(si), Xj = Y.tracker->getMobilizedBody(sj).getBodyTransform(st) * Y.tracker->getContactSurfaceTransform(sj);
+                Contact exp; ContactSurfaceIndex e1 = si, e2 = sj;
+                if (Y.tracker->hasContactTracker(gi.getTypeId(), gj.getTypeId())) {
+                    bool rev = false; const ContactTracker& trk = Y.tracker->getContactTracker(gi.getTypeId(), gj.getTypeId(), rev);
+                    if (rev) { e1 = sj; e2 = si; trk.trackContact(UntrackedContact(sj, si), Xj, gj, Xi, gi, 0, exp); } else trk.trackContact(UntrackedContact(si, sj), Xi, gi, Xj, gj, 0, exp);
+                }
+                auto it = got.find({i, j}); std::string why;
+                if (exp.isEmpty()) { if (it != got.end()) why = "the snapshot has a contact that the pair's tracker does not report"; }
+                else if (it == got.end()) why = "the pair's tracker reports a contact (" + fromContact(exp, Transform()).type + ") but the subsystem has none for this pair (pruned before the narrow phase)";
+                else if (it->second.size() != 1) why = "pair reported more than once";
+                else {
+                    const Contact& g = *it->second[0]; Res r1 = fromContact(g, Transform()), r2 = fromContact(exp, Transform());
+                    bool same = g.getSurface1() == e1 && g.getSurface2() == e2 && r1.type == r2.type && (r1.depth == r2.depth || (std::isnan(r1.depth) && std::isnan(r2.depth)))
+                                && (r1.normal == r2.normal || !gk::finite3(r2.normal)) && (r1.point == r2.point || !gk::finite3(r2.point)) && r1.f1 == r2.f1 && r1.f2 == r2.f2
+                                && g.getTransform().p() == exp.getTransform().p() && g.getCondition() == Contact::NewContact && g.getContactId().isValid();
+                    if (!same) why = "contact differs from the pair's tracker result (surface order, depth, normal, origin, face sets, X_S1S2, condition or id)";
+                }
+                run.expect(why.empty(), "tracker-subsystem-contacts-equal-pairwise-narrow-phase/" + pairName, [&] { return "surfaces (" + std::to_string(i) + "," + std::to_string(j) + "): " + why + " at " + desc; }, rp);
+                if (!exp.isEmpty()) run.count("tracker-subsystem-contacts:" + pairName);
+            }
+            run.outcome(verif::hashPod(snap.getNumContacts(), verif::hashPod(mount)));
+            if (idx % 9973 == 0) run.sample("tracker-subsystem " + desc + " -> " + std::to_string(snap.getNumContacts()) + " active contacts");
+        });
+    }
+
     run.extraCoverage["pairs"] = std::to_string(pairs.size());
     return run.finish();
 }
